@@ -33,7 +33,7 @@ def run(ck):
     # ---- C->S round trips of every type
     traces = cellcommon.drive_shards(ck, "C03")
     def val(tp):
-        return ck.validate_events("Tlb_Trace", "trace/Tlb_Trace.cfg", tp, timeout=3000, name="trace_" + os.path.basename(tp)[6:8], heap_gb=6,
+        return ck.validate_events("Tlb_Trace", "trace/Tlb_Trace.cfg", tp, timeout=3000, name="trace_" + os.path.basename(tp)[6:8], heap_gb=3,
                                   extra_files={"schema.json": empty})
     empty = os.path.join(ck.work, "empty_schema.json")
     open(empty, "w").write("{}")
